@@ -51,7 +51,13 @@ ITEM_FORKS = {
 def at_switch_point(src, c, feature):
     """the documented switch point is an item, not a file: the reviewed gates of `unbounded` keep their standing when the counter type
     moves to another module of the parser"""
-    return feature == 'unbounded' and '/toml_edit/src/parser/' in c['file'] and (item_scope(src, c), c['node'], c['name']) in UNBOUNDED_GATES
+    return feature == 'unbounded' and '/toml_edit/src/parser/' in c['file'] and _on_counter(src, c)
+
+
+def _on_counter(src, c):
+    """the gate sits on the recursion counter: the RecursionCheck type and its impls, the LIMIT constant, the error variant raised by it"""
+    sc = item_scope(src, c)
+    return (sc, c['node'], c['name']) in UNBOUNDED_GATES or 'RecursionCheck' in sc or c['name'] in ('RecursionCheck', 'LIMIT', 'RecursionLimitExceeded')
 
 
 def r2_census(rep, repo):
@@ -95,9 +101,12 @@ def r2_census(rep, repo):
         else:
             rep.ok(R, key, 'gates a whole item / field / file', loc)
     # exact gate set of `unbounded`
-    got = {(item_scope(src, c), c['node'], c['name']) for c in cfgs if 'unbounded' in feats_of(c['pred'])}
-    rep.check(R, 'unbounded|gate-set', got == UNBOUNDED_GATES, f'{len(got)} gates', f'the `unbounded` gates are {sorted(got ^ UNBOUNDED_GATES)} off the reviewed set: part of the recursion limit '
-              f'stays compiled in (or out) regardless of the feature')
+    # `unbounded` is tested on the recursion counter only (where exactly — fields, blocks, whole impls — is the code's business); what the two builds then do is
+    # decided by evaluation (R2b)
+    got = [c for c in cfgs if 'unbounded' in feats_of(c['pred'])]
+    off = sorted({(c['file'], item_scope(src, c), c['node'], c['name']) for c in got if not _on_counter(src, c)})
+    rep.check(R, 'unbounded|gate-set', got and not off, f'{len(got)} gates, all on the recursion counter', f'feature `unbounded` is tested at {off} besides the recursion counter' if off else
+              'no `unbounded` gate found: the feature does nothing')
     # complementary item definitions
     dup = {}
     for it in src['items']:
@@ -118,6 +127,77 @@ def r2_census(rep, repo):
             rep.check(R, f'{file}|{scope}|{name}|item-fork', ok, how, f'`{name}` ({kind}) in {file} is defined {len(v)} times under different cfgs {sorted(set(v))}: an unreviewed '
                       f'feature-dependent implementation', file)
     rep.info(R, f'{n} cfg sites analysed in the five library crates')
+
+
+def r2b_unbounded_behaviour(rep):
+    """what `unbounded` switches: the limit, wholly, and nothing else about the counter"""
+    R = rep.rule('C18/R2b', 'feature `unbounded` removes the nesting limit as a whole and nothing else: RecursionCheck::check_depth and ::enter evaluated in both builds — by default they '
+                 'refuse exactly from the limit on (and accept below it), with the feature they accept every depth; in both builds an enter followed by an exit leaves the counter where it was', floor=6)
+    from .den import Evaluator, FxInterp, Unanalysable
+    Pp = 'toml_edit::parser::prelude::RecursionCheck::'
+    is_err = lambda r: isinstance(r, tuple) and r and r[0] == 'ctor' and r[1].endswith('Result::Err')
+    for cfg in ('default', 'unbounded'):
+        f = Facts(cfg)
+        if not all(f.has_body(Pp + x) for x in ('check_depth', 'enter', 'exit')):
+            rep.incomplete(R, f'{cfg}|RecursionCheck', 'check_depth / enter / exit not found')
+            continue
+        ev = Evaluator(f)
+        lim = None
+        if cfg == 'default':
+            for name in ('toml_edit::parser::prelude::LIMIT', 'toml_edit::parser::prelude::RecursionCheck::LIMIT'):
+                try:
+                    lim = ev.integer({'k': 'path', 'res': 'Const', 'path': name})
+                    break
+                except Unanalysable:
+                    try:
+                        lim = ev.integer({'k': 'path', 'res': 'AssocConst', 'path': name})
+                        break
+                    except Unanalysable:
+                        pass
+
+        def run(name, cur=0, arg=None):
+            b = f.body(Pp + name)
+            it = FxInterp(ev)
+            pn = [p['name'] for p in b.get('params', []) if p.get('k') == 'p_bind']
+            env = {'.current': cur, '@assign': {}}
+            if name == 'check_depth':
+                env[pn[-1]] = arg
+            else:
+                env[pn[0]] = ('self',)
+            try:
+                r = it.run_body(b, env)
+            except Unanalysable:
+                raise
+            except Exception as ex:
+                r = getattr(ex, 'v', None)
+                if r is None:
+                    raise
+            return r, env.get('.current')
+        try:
+            depths = (0, 1, 79, 80, 81, 500, 10 ** 6) if lim is None else (0, 1, lim - 1, lim, lim + 1, 10 * lim)
+            cd = {d: is_err(run('check_depth', arg=d)[0]) for d in depths}
+            en = {c: is_err(run('enter', cur=c)[0]) for c in depths}
+            bal = []
+            for c in (0, 1, 5):
+                r, mid = run('enter', cur=c)
+                _, after = run('exit', cur=mid)
+                bal.append((c, mid, after))
+        except Unanalysable as e:
+            rep.incomplete(R, f'{cfg}|evaluation', f'cannot evaluate the counter in configuration `{cfg}`: {e}')
+            continue
+        loc = f.loc(f.body(Pp + 'check_depth'))
+        if cfg == 'unbounded':
+            rep.check(R, 'unbounded|check_depth', not any(cd.values()), 'every depth accepted', f'with feature `unbounded`, check_depth still refuses the depths {[d for d, e in cd.items() if e]}', loc)
+            rep.check(R, 'unbounded|enter', not any(en.values()), 'every depth accepted', f'with feature `unbounded`, enter still refuses at the counter values {[d for d, e in en.items() if e]}', loc)
+        else:
+            rep.check(R, 'default|limit', lim is not None and 2 <= lim <= 128, f'LIMIT = {lim}', f'the nesting limit of the default build is {lim}', loc)
+            if lim is not None:
+                rep.check(R, 'default|check_depth', all(e == (d >= lim) for d, e in cd.items()), f'refuses exactly from {lim}', f'by default, check_depth refuses {[d for d, e in cd.items() if e]} '
+                          f'(expected: exactly the depths >= {lim})', loc)
+                rep.check(R, 'default|enter', all(e == (c + 1 >= lim) for c, e in en.items()), f'refuses exactly when the counter reaches {lim}', f'by default, enter refuses at the counter values '
+                          f'{[c for c, e in en.items() if e]} (expected: exactly when counter + 1 >= {lim})', loc)
+        rep.check(R, f'{cfg}|balanced', all(isinstance(a, int) and a == c and isinstance(m, int) and m >= c for c, m, a in bal), f'{bal}',
+                  f'in configuration `{cfg}` enter / exit take the counter {bal} (before, after enter, after exit): exit does not undo enter', loc)
 
 
 def pub_api(facts, type_prefix):
@@ -323,6 +403,7 @@ def run(tier):
         r5_order_sensitive(rep)
         r5b_single_entry_enum(rep)
         r3d_same_resolution(rep)
+        r2b_unbounded_behaviour(rep)
         from .shared import presized_from_hint
         R6 = rep.rule('C18/R6', 'the map type behind toml::Map differs in when it allocates (BTreeMap lazily, IndexMap eagerly): no container of the workspace is pre-sized from an access '
                       'object\'s size_hint(), an untrusted number that only the eager configuration would act on', floor=1)
